@@ -251,11 +251,21 @@ func ParseParameters(query string) []oid.Oid {
 		// SELECT * FROM users WHERE id = ?
 		if match[1] == "" {
 			parameters = append(parameters, 0)
+			continue
 		}
 
-		position, _ := strconv.Atoi(match[1]) //nolint:errcheck
-		if position > len(parameters) {
-			parameters = parameters[:position]
+		// NOTE: positions which cannot be represented or which exceed the
+		// maximum number of parameters supported by the wire protocol are
+		// ignored, such a statement could never be bound.
+		position, err := strconv.Atoi(match[1])
+		if err != nil || position > buffer.MaxPreparedStatementArgs {
+			continue
+		}
+
+		// NOTE: the highest position defines the number of parameters, the
+		// positions could contain gaps or be given in any order.
+		for len(parameters) < position {
+			parameters = append(parameters, 0)
 		}
 	}
 
